@@ -258,6 +258,10 @@ func RunPair(a, b Station, plan link.Plan) (*link.Link, [2]Result) {
 		return func(c *link.Conn) {
 			defer func() {
 				if e := recover(); e != nil {
+					if _, ok := e.(link.HorizonAbort); ok { // not a panic of the library: the link stopped a spin
+						res[i].Err = fmt.Errorf("%v", e)
+						return
+					}
 					res[i].Panic = fmt.Sprint(e)
 					res[i].Stack = string(debug.Stack())
 				}
@@ -354,6 +358,11 @@ func Equal(a, b []byte) bool { return bytes.Equal(a, b) }
 func RunScriptConn(st Station, target string, c net.Conn) (res Result) {
 	defer func() {
 		if e := recover(); e != nil {
+			if _, ok := e.(link.HorizonAbort); ok {
+				res.Err = fmt.Errorf("%v", e)
+				c.Close()
+				return
+			}
 			res.Panic = fmt.Sprint(e)
 			res.Stack = string(debug.Stack())
 			c.Close()
